@@ -1025,6 +1025,44 @@ def e6_none_safety(ctx) -> None:
     ctx.ok("E6", "type checker diagnostics", f"{len(eng.types.diagnostics)} mypy diagnostics in the package, {n} Optional-use diagnostics in consume-reachable functions")
 
 
+def e9_untyped_containers(ctx) -> None:
+    """E9  a JSON member chosen by the attacker is of any JSON type: `x in member`, `for x in member` (and comprehensions) raise TypeError for a
+    number / true / null.  In consume-reachable code no membership test or iteration runs over an expression that is still of type Any and was
+    read from a header / JSON object (`h.get("crit")`, `h["crit"]`); an isinstance test narrows the type, which is what the type-checked program
+    shows.  (check_crit_header's loop is decided by E2b: validated by the registry before.)"""
+    eng = ctx.eng
+    from .common import resolve_all
+    import re
+    member_read = re.compile(r"(\.get\('[^']*'(, [^()]*)?\)|\['[^']*'\])$")
+    crit = eng.prog.func("registry:check_crit_header")
+    n = seen_e2b = 0
+    for fn in consume_scope(eng):
+        for node in fn_nodes(fn):
+            v = None
+            if isinstance(node, ast.Compare) and len(node.ops) == 1 and isinstance(node.ops[0], (ast.In, ast.NotIn)):
+                v = node.comparators[0]
+            elif isinstance(node, (ast.For, ast.comprehension)):
+                v = node.iter
+            elif isinstance(node, ast.Starred):
+                v = node.value
+            if v is None:
+                continue
+            n += 1
+            td = eng.types.of(fn.module, v)
+            if not td.any:
+                continue
+            texts = resolve_all(eng, fn, v)
+            if not any(member_read.search(t) for t in texts):
+                continue
+            if fn is crit and isinstance(node, ast.For):
+                seen_e2b += 1
+                continue
+            ctx.fail("E9", fn, node, f"`{norm(node)[:60]}` tests / iterates `{texts[0][:50]}`, a JSON member of unconstrained type: a number, boolean or null there "
+                     f"escapes as TypeError (argument of type 'int' is not iterable)", construct=f"membership / iteration over an untyped JSON member in {fn.short}")
+    ctx.count("E9", n, 60, "membership tests and iterations in consume-reachable code (type of the container looked up)")
+    ctx.count("E9/positive", seen_e2b, 1, "the one untyped iteration (check_crit_header, decided by E2b) is recognised")
+
+
 def run(ctx) -> None:
     ctx.guard(e6_none_safety)
     ctx.guard(e1_e5)
@@ -1034,6 +1072,7 @@ def run(ctx) -> None:
     ctx.guard(e2c)
     ctx.guard(e2d)
     ctx.guard(e2f)
+    ctx.guard(e9_untyped_containers)
     ctx.guard(e3)
     ctx.guard(e4)
     from .c02 import r02_8
